@@ -30,6 +30,8 @@ def run_cli(argv, cwd=None, uid=None, timeout=60):
                            preexec_fn=pre if uid is not None else None, timeout=timeout)
     except subprocess.TimeoutExpired:
         return None, b"", b""
+    except PermissionError:
+        return "noperm", b"", b""
     return p.returncode, p.stdout, p.stderr
 
 
@@ -214,6 +216,9 @@ def tree_case(agg, rng, quick):
         uid_run = 65534 if fault == "unreadable" else None
         rc, out, err = run_cli(argv, uid=uid_run)
         agg.evaluations += 1
+        if rc == "noperm":
+            agg.inconc("setuid_child_cannot_run_here")
+            return
         desc = {"root": root_src[:1500], "jdirs": jkeys, "argv": [a.replace(tmp, "<tmp>") for a in argv]}
         replay = {"tree": desc}
         if rc is None:
@@ -267,6 +272,9 @@ def tree_case(agg, rng, quick):
                 argv2 += ["-J", d]
             rc2, out2, err2 = run_cli(argv2 + [bad_path], uid=uid_run)
             agg.evaluations += 1
+            if rc2 == "noperm":
+                agg.inconc("setuid_child_cannot_run_here")
+                continue
             e2 = err2.decode("utf-8", "replace")
             d2 = dict(desc, expr=e, stderr=e2[-500:].replace(tmp, "<tmp>"), exit=rc2)
             if rc2 != 1 or out2 != b"":
